@@ -36,13 +36,15 @@ RULES = {
 KINDS = ["jonswap", "pm", "mixed", "random", "jonswap", "random", "mixed", "empty"]
 
 
-def rand_case(run, rng, nd_choices=(12, 16, 24), max_pts=8, kinds=None):
+def rand_case(run, rng, nd_choices=(12, 16, 24), max_pts=8, kinds=None, allow_nonuniform=False):
     npts = rng.randint(1, max_pts)
     nf = rng.choice([8, 10, 14])
     nd = rng.choice(list(nd_choices))
     ks = kinds or [rng.choice(KINDS) for _ in range(npts)]
     depth_mode = rng.choice(["deep", "finite", "mixed"])
-    spec, ths = wp.make_spectrum(rng, npts, nf, nd, ks, depth_mode)
+    nonuni = allow_nonuniform and rng.random() < 0.3
+    spec, ths = wp.make_spectrum(rng, npts, nf, nd, ks, depth_mode, nonuniform_directions=nonuni)
+    run.count("directions_nonuniform" if nonuni else "directions_uniform")
     use_ustar = rng.random() < 0.3
     if use_ustar:
         speed = np.array([rng.uniform(0.05, 1.5) for _ in range(npts)])
@@ -77,7 +79,7 @@ def c08(run, drv, rng, ncases):
     for case in range(ncases):
         with common.guard(run, f"C08 case {case}"), warnings.catch_warnings():
             warnings.simplefilter("ignore")
-            spec, ths, speed, wdir, wtype, ks, depth_mode = rand_case(run, rng)
+            spec, ths, speed, wdir, wtype, ks, depth_mode = rand_case(run, rng, allow_nonuniform=True)
             gv = rng.choice(wp.GEN_VARIANTS)
             gen, gp = wp.generation(gv)
             dkind = rng.choice(["st4", "st4", "st6"])
@@ -116,6 +118,18 @@ def c08(run, drv, rng, ncases):
             if not np.allclose(Sb, want, rtol=1e-10, atol=1e-300):
                 run.violation("the bulk wind-input rate is not the frequency-direction integral of the spectral rate",
                               dict(info, bulk=Sb.tolist(), integral=want.tolist()))
+            # ---- the same with the roughness the code computes itself (either wind type)
+            if case % 2 == 0:
+                run.case("input_own_roughness", key=(case, wtype))
+                Sr = gen.rate(spec, wp.da(speed), wp.da(wdir), wind_speed_input_type=wtype).values
+                Sbr = gen.bulk_rate(spec, wp.da(speed), wp.da(wdir), wind_speed_input_type=wtype).values
+                okr = np.isfinite(Sbr) & np.all(np.isfinite(Sr), axis=(1, 2))
+                wantr = np.einsum("pfd,f,d->p", np.nan_to_num(Sr), df, dth)
+                if not np.allclose(Sbr[okr], wantr[okr], rtol=1e-6, atol=1e-300):
+                    run.violation("the bulk wind-input rate (roughness from the stress balance) is not the integral of the spectral rate",
+                                  dict(info, bulk=Sbr.tolist(), integral=wantr.tolist()))
+                if np.any(Sr[np.isfinite(Sr)] < 0):
+                    run.violation("the wind-input term (roughness from the stress balance) is negative", info)
             # ---- dissipation
             run.case("dissipation", key=(case, dkind), nontrivial=any(k != "empty" for k in ks))
             D = dis.rate(spec).values
@@ -127,6 +141,17 @@ def c08(run, drv, rng, ncases):
                 if ks[i % len(ks)] == "empty" and np.any(D[i] != 0):
                     run.violation("dissipation of an empty spectrum is not identically zero", dict(info, point=i))
             Db = dis.bulk_rate(spec).values
+            Ddir = dis.mean_direction_degrees(spec).values
+            # independent dissipation-weighted wavenumber direction from the spectral rate
+            for i in range(npts):
+                if Db[i] < 0:
+                    kk = wp.kinematics(spec, i, False)[0]
+                    kx = -np.einsum("f,d,fd,f,d->", kk, np.cos(th), D[i], df, dth)
+                    ky = -np.einsum("f,d,fd,f,d->", kk, np.sin(th), D[i], df, dth)
+                    wantdir = math.degrees(math.atan2(ky, kx)) % 360
+                    if abs(wp.ang_diff(Ddir[i], wantdir)) > 1e-6:
+                        run.violation("the dissipation-weighted mean wave direction is not the direction of the dissipation-weighted wavenumber vector",
+                                      dict(info, point=i, got=float(Ddir[i]), want=wantdir))
             want = np.einsum("pfd,f,d->p", D, df, dth)
             if not np.allclose(Db, want, rtol=1e-10, atol=1e-300):
                 run.violation("the bulk dissipation rate is not the frequency-direction integral of the spectral rate",
@@ -192,6 +217,8 @@ def c08(run, drv, rng, ncases):
                     run.mismatch(dkind + "_dissipation", dict(info, point=i, max_abs=float(np.nanmax(np.abs(D[i] - v[2:].reshape(nf, nd))))))
                 if not wp.close([Db[i]], [v[0]], 1e-9):
                     run.mismatch("bulk_dissipation", dict(info, point=i, impl=float(Db[i]), model=float(v[0])))
+                if Db[i] < 0 and abs(wp.ang_diff(Ddir[i], v[1])) > 1e-6:
+                    run.mismatch("dissipation_direction", dict(info, point=i, impl=float(Ddir[i]), model=float(v[1])))
             if case < 3:
                 run.sample(dict(info, bulk_input=Sb.tolist(), bulk_dissipation=Db.tolist()))
 
@@ -212,7 +239,15 @@ def c09(run, drv, rng, ncases, all_k):
             ks = ks[:npts]
             gen, gp = wp.generation(rng.choice(wp.GEN_VARIANTS))
             dkind = rng.choice(["st4", "st6"])
-            dis, dp = wp.dissipation(dkind, rng.choice(wp.ST4_VARIANTS if dkind == "st4" else wp.ST6_VARIANTS))
+            dis, dp = wp.dissipation(dkind, rng.choice(wp.ST4_VARIANTS[:3] if dkind == "st4" else wp.ST6_VARIANTS[:2]))
+            # steepen the seas until every point breaks: an identically zero dissipation field tests nothing
+            for _ in range(4):
+                Db0 = dis.bulk_rate(spec).values
+                if np.all(Db0 < 0):
+                    break
+                spec = wp.with_density(spec, spec.variance_density.values * np.where(Db0 < 0, 1.0, 2.0)[:, None, None])
+            run.count("points_with_breaking", int(np.sum(dis.bulk_rate(spec).values < 0)))
+            run.count("points_without_breaking", int(np.sum(dis.bulk_rate(spec).values == 0)))
             E = spec.variance_density.values
             nd = E.shape[2]
             binw = 360.0 / nd
@@ -560,7 +595,12 @@ def c11(run, drv, rng, ncases):
             with_rate = rng.random() < 0.4
             tds = None
             if with_rate:
-                tds = wp.with_density(spec, E * rng.uniform(-2e-5, 2e-5))
+                # content in every bin (also against the wind), a noticeable fraction of the dissipation
+                pattern = np.array([[[rng.uniform(0.2, 1.0) for _ in range(nd)] for _ in range(nf)] for _ in range(npts)])
+                dth0 = 360.0 / nd
+                scale = np.abs(np.einsum("pfd,f->p", E, np.gradient(spec.frequency.values)) * dth0) + 1e-12
+                tds = wp.with_density(spec, pattern / np.einsum("pfd,f->p", pattern, np.gradient(spec.frequency.values))[:, None, None] / dth0
+                                      * scale[:, None, None] * rng.choice([-1.0, 1.0]) * rng.uniform(2e-6, 2e-5))
             run.count("pair_st4_" + dkind)
             run.count("with_rate" if with_rate else "stationary")
             run.count("depth_" + depth_mode)
@@ -568,6 +608,7 @@ def c11(run, drv, rng, ncases):
             u10, udir = out["u10"].values, out["direction"].values
             Db = dis.bulk_rate(spec).values
             Ddir = dis.mean_direction_degrees(spec).values
+            Drate = dis.rate(spec).values
             df, dth = spec.frequency_step.values, spec.direction_step.values
             info = dict(kinds=kinds, depth=depth_mode, pair=["st4", dkind], with_rate=with_rate, nf=nf, nd=nd, u10=u10.tolist(), direction=udir.tolist(),
                         bulk_dissipation=Db.tolist())
@@ -589,6 +630,15 @@ def c11(run, drv, rng, ncases):
                     continue
                 if abs(wp.ang_diff(udir[i], Ddir[i])) > 1e-9:
                     run.violation("without direction iteration the reported direction is not the dissipation-weighted mean wave direction", what)
+                kk = wp.kinematics(spec, i, False)[0]
+                th = spec.radian_direction.values
+                Dr = Drate[i]
+                kx = -np.einsum("f,d,fd,f,d->", kk, np.cos(th), Dr, df, dth)
+                ky = -np.einsum("f,d,fd,f,d->", kk, np.sin(th), Dr, df, dth)
+                wantdir = math.degrees(math.atan2(ky, kx)) % 360
+                if abs(wp.ang_diff(udir[i], wantdir)) > 1e-6:
+                    run.violation("the reported direction is not the direction of the dissipation-weighted wavenumber vector computed from the spectral dissipation",
+                                  dict(what, want=wantdir))
                 # does the balance have a root between 2 and 40 m/s?
                 us = np.linspace(2.0, 40.0, 20)
                 bs = np.array([balance_at(i, float(u)) for u in us])
